@@ -42,6 +42,7 @@ class Contract:
         self.yields = kw.pop("yields", None)  # element type for generator functions
         self.locals = kw.pop("locals", {})  # declared sorts of locals that need help
         self.entry_assume = kw.pop("entry_assume", None)  # extra assumptions about ghost state at entry (listed as assumptions)
+        self.assumes = kw.pop("assumes", [])  # what entry_assume states, in words: copied into the evidence of every run that uses it
         self.allow_exc = kw.pop("allow_exc", None)
         self.pure = kw.pop("pure", False)  # no heap/ghost effects: generic native replay applies
         self.replay = kw.pop("replay", None)
